@@ -21,10 +21,10 @@ setup_tree() {
   rm -rf $S; mkdir -p $S/coq/Gen $S/coq/Proofs
   ln -s $C/Lib $S/coq/Lib; ln -s $C/Model $S/coq/Model
   for f in $C/Gen/*; do
-    case $(basename $f) in FfRoutines.*|FfgRoutines.*|FfGlue.*|FfgGlue.*|.FfRoutines.*|.FfgRoutines.*|.FfGlue.*|.FfgGlue.*) ;; *) ln -s $f $S/coq/Gen/ ;; esac
+    case $(basename $f) in FfRoutines.*|FfgRoutines.*|FfGlue.*|FfgGlue.*|FfMem.*|FfgMem.*|.FfMem.*|.FfgMem.*|.FfRoutines.*|.FfgRoutines.*|.FfGlue.*|.FfgGlue.*) ;; *) ln -s $f $S/coq/Gen/ ;; esac
   done
   for f in $C/Proofs/*.vo; do
-    case $(basename $f .vo) in FfRoutinesEq|FfgRoutinesEq|FfGlueEq|FfgGlueEq) ;; *) ln -s $f $S/coq/Proofs/ ;; esac
+    case $(basename $f .vo) in FfRoutinesEq|FfgRoutinesEq|FfGlueEq|FfgGlueEq|FfMemEq|FfgMemEq) ;; *) ln -s $f $S/coq/Proofs/ ;; esac
   done
   for e in $EQ; do cp $C/Proofs/$e.v $S/coq/Proofs/; done
 }
